@@ -22,23 +22,28 @@ def sh(cmd, **kw):
     return p.returncode, p.stdout
 
 
-assert sh("git -C /repo status --porcelain --untracked-files=no")[1].strip() == "", "repo not clean"
-env = "OMP_NUM_THREADS=2 PYTHONPATH=/repo"
-rc_clean, out_clean = sh("cd /repo && %s /venv/bin/python -W ignore %s/demo_mutant.py" % (env, dst))
-rc, out = sh("git -C /repo apply %s/patch.diff" % dst)
+# EVAL_REPO=<scratch worktree of /repo at HEAD>: evaluate there (PYTHONPATH + VERIF_REPO point the checks at it) when
+# /repo itself is busy serving a background sweep; otherwise the patch is applied to /repo and reverted.
+REPO = os.environ.get("EVAL_REPO", "/repo")
+assert sh("git -C %s status --porcelain --untracked-files=no" % REPO)[1].strip() == "", "repo not clean"
+assert sh("git -C %s rev-parse HEAD" % REPO)[1] == sh("git -C /repo rev-parse HEAD")[1], "EVAL_REPO is not at /repo's HEAD"
+env = "OMP_NUM_THREADS=2 PYTHONPATH=%s" % REPO
+CHK = "" if REPO == "/repo" else "VERIF_REPO=%s PYTHONPATH=%s " % (REPO, REPO)
+rc_clean, out_clean = sh("cd %s && %s /venv/bin/python -W ignore %s/demo_mutant.py" % (REPO, env, dst))
+rc, out = sh("git -C %s apply %s/patch.diff" % (REPO, dst))
 assert rc == 0, out
 results = {}
 try:
-    rc_mut, out_mut = sh("cd /repo && %s /venv/bin/python -W ignore %s/demo_mutant.py" % (env, dst))
+    rc_mut, out_mut = sh("cd %s && %s /venv/bin/python -W ignore %s/demo_mutant.py" % (REPO, env, dst))
     for p in props:
-        r, o = sh("cd /verif && ./check %s --tier quick" % p)
+        r, o = sh("cd /verif && %s./check %s --tier quick" % (CHK, p))
         lines = [l for l in o.splitlines() if l.startswith("VIOLATION") or l.startswith("OK ") or l.startswith("KNOWN") or l.startswith("MACHINERY")]
         ol = o.splitlines()
         first = next((ol[i + 1] for i, l in enumerate(ol[:-1]) if l.startswith("VIOLATION")), "")
         results[p] = {"exit": r, "violations": sum(1 for l in lines if l.startswith("VIOLATION")), "first": first.strip()[:400],
                       "machinery": [l[:200] for l in lines if l.startswith("MACHINERY")][:2]}
 finally:
-    sh("git -C /repo checkout -- .")
+    sh("git -C %s checkout -- ." % REPO)
     sh("rm -rf /verif/replays")
 meta = {"breaks_property": props[0], "origin": "independent sub-agent given only the property text and a scratch worktree",
         "needs": open(os.path.join(dst, "NOTES.md")).read()[:1500] if os.path.exists(os.path.join(dst, "NOTES.md")) else "",
